@@ -138,6 +138,11 @@ def skeletons(tree, running, asyncify, kind="coro"):
                 body = sk.block(n.body)
             except Skip:
                 continue
+            if kind == "gen" and not any(isinstance(x, (ast.Yield, ast.YieldFrom)) for b in body for x in ast.walk(b)):
+                # a body made of compound statements only got no suspension point: without a yield the
+                # skeleton would not be a generator at all
+                k = sk.nk()
+                body = [ast.Expr(ast.Yield(sk.call("pre", k))), ast.Expr(sk.call("post", k))] + body
             args = ast.arguments([], [], None, [], [], None, [])
             if kind in ("coro", "agen"):
                 f = ast.AsyncFunctionDef("f0", args, body, [], None)
